@@ -215,7 +215,7 @@ def run(ctx):
         names = QUICK if ctx.quick else list(CORPUS)
         cfgs = [(3, 1), (2, 0), (4, 1)] if ctx.quick else [(2, 0), (3, 0), (3, 1), (4, 1), (5, 2), (5, 1)]
         corpus_check(ctx, 'C08', names, cfgs, nrand=3 if ctx.quick else 10,
-                     budget_events=250000 if ctx.quick else 1500000)
+                     budget_events=250000 if ctx.quick else 600000)
         ctx.assumptions += ['_hop collisions do not occur (observed ones would be reported)',
                             'schedules are fair: every enabled action is eventually taken (finite delays)',
                             'PCSched steps any runnable task (superset of asyncio FIFO order)']
